@@ -37,13 +37,13 @@ from gin import config as gc
 
 BOUNDS = ('macro mode: <= 3 parse calls (string / list of lines / file / file with an '
           'include / files_and_bindings), <= 5 statements each, over macro names '
-          '{m,n,a,a/b,a/b/c,b} (acyclic value references, values: literals, containers, '
-          '@g(), %other) and 4 consumers (root or scope s), every resolvable consumer '
-          'called twice after every parse call, then finalize (optionally inside a '
-          'config_scope).  constant mode: <= 4 valid names out of 12 over components '
-          '{a,b,c}.{X,Y} (plus an enum), one duplicate/shadowing/invalid definition '
-          'attempt, every dotted suffix of every pool name queried.  quick: 60 fixed + '
-          '900 sampled cases; thorough: 30000 sampled.')
+          '{m,n,a,a/b,a/b/c,b} (acyclic value references; values: literals, containers, '
+          '@g(), %other) and 4 consumers (bound at root, s/ or a/); every resolvable consumer is '
+          'called twice after every parse call, then finalize (in 3 fixed cases inside a '
+          'config_scope).  constant mode: <= 4 valid names out of 12 over {a,b,c}*.{X,Y} '
+          '(optionally an enum), one duplicate / shadowing / invalid / fresh definition '
+          'attempt, every dotted suffix of every defined or attempted name and of X, Y, '
+          'a.X, q.X queried.  quick: 78 fixed + 1200 sampled cases; thorough: 40000 sampled.')
 EXHAUSTIVE = {'quick': False, 'thorough': False}
 
 MACROS = ['m', 'n', 'a', 'a/b', 'a/b/c', 'b']       # a value may only mention later names
@@ -94,7 +94,7 @@ def _macro_case(rng):
                       'form': rng.choice(['plain', 'plain', 'macro.value', 'gin.macro.value']),
                       'val': _expr(rng, serial, MACROS[i + 1:])})
       else:
-        stmts.append({'k': 'use', 'u': rng.randrange(4), 'scope': rng.choice(['', '', 's']),
+        stmts.append({'k': 'use', 'u': rng.randrange(4), 'scope': rng.choice(['', '', 's', 'a']),
                       'val': _expr(rng, serial, MACROS, in_use=True)})
     steps.append({'how': rng.choice(HOWS), 'split': rng.randint(0, len(stmts)), 'stmts': stmts})
   case = {'mode': 'macro', 'steps': steps, 'fin_scope': None}
@@ -103,9 +103,15 @@ def _macro_case(rng):
     # only, so that it cannot use up the violation budget of a run.
     for step in steps:
       for s in step['stmts']:
-        if s['val']['t'] == 'dkey':
-          s['val'] = {'t': 'mac', 'n': s['val']['n']}
+        _undkey(s['val'])
   return case
+
+
+def _undkey(e):
+  if e['t'] == 'dkey':
+    e['t'] = 'mac'
+  for i in e.get('i', []):
+    _undkey(i)
 
 
 def _const_case(rng):
@@ -132,12 +138,23 @@ def _fixed_cases():
   for n in MACROS:
     for how in HOWS:      # use before definition, redefinition in a later parse call / file
       yield {'mode': 'macro', 'fin_scope': None, 'steps': [
-          {'how': how, 'split': 1, 'stmts': [use(n), dfn(n, lit(1)), dfn(n, lit(2), 'macro.value')]},
+          {'how': how, 'split': 1,
+           'stmts': [use(n), dfn(n, lit(1)), dfn(n, lit(2), 'macro.value')]},
           {'how': how, 'split': 0, 'stmts': [dfn(n, {'t': 'list', 'i': [{'t': 'g'}, lit(3)]})]},
           {'how': 'str', 'split': 0, 'stmts': [use('b' if n != 'b' else 'm', 1)]}]}
+    yield {'mode': 'macro', 'fin_scope': None, 'steps': [      # definition, use, redefinition
+        {'how': 'str', 'split': 0, 'stmts': [dfn(n, lit(1)), use(n), dfn(n, lit([2]))]},
+        {'how': 'file', 'split': 0, 'stmts': [dfn(n, {'t': 'g'})]}]}
+  for n in ('m', 'a/b'):         # include / files-then-bindings are processed in place
+    for how in ('include', 'fab'):
+      yield {'mode': 'macro', 'fin_scope': None, 'steps': [{'how': how, 'split': 2, 'stmts': [
+          use(n), dfn(n, lit(1)), dfn(n, lit(2)), dfn(n, lit(3)), dfn(n, lit(4))]}]}
+      yield {'mode': 'macro', 'fin_scope': None, 'steps': [{'how': how, 'split': 1, 'stmts': [
+          dfn(n, lit(1)), dfn(n, lit(2)), dfn(n, lit(3)), use(n)]}]}
   for n in MACROS[:3]:
     yield {'mode': 'macro', 'fin_scope': None, 'steps': [{'how': 'str', 'split': 0, 'stmts': [
-        dfn(n, lit(1)), {'k': 'use', 'u': 0, 'scope': '', 'val': {'t': 'uneval', 'n': n, 'short': False}}]}]}
+        dfn(n, lit(1)),
+        {'k': 'use', 'u': 0, 'scope': '', 'val': {'t': 'uneval', 'n': n, 'short': False}}]}]}
     yield {'mode': 'macro', 'fin_scope': None, 'steps': [{'how': 'str', 'split': 0, 'stmts': [
         dfn(n, {'t': 'mac', 'n': 'b'})]}]}
     # a use as dict key (bound, then never bound)
@@ -150,7 +167,8 @@ def _fixed_cases():
                                     {'t': 'uneval', 'n': 'n', 'short': True}}]):
     yield {'mode': 'macro', 'fin_scope': 'q',
            'steps': [{'how': 'str', 'split': 0, 'stmts': stmts}]}
-  for names in (['a.X', 'b.X'], ['X', 'a.X'], ['b.a.X', 'c.a.X', 'a.Y'], ['a.b.c.X', 'b.c.Y', 'c.b.c.Y']):
+  for names in (['a.X', 'b.X'], ['X', 'a.X'], ['b.a.X', 'c.a.X', 'a.Y'],
+                ['a.b.c.X', 'b.c.Y', 'c.b.c.Y']):
     for attempt in (None, names[0], 'X', 'a..X'):
       yield {'mode': 'const', 'names': names, 'attempt': attempt, 'enum': False,
              'where': len(names), 'via_macro': False}
@@ -164,7 +182,7 @@ def _fixed_cases():
 def cases(tier, rng):
   for c in _fixed_cases():
     yield c
-  n = 900 if tier == 'quick' else 30000
+  n = 1200 if tier == 'quick' else 40000
   for i in range(n):
     yield _const_case(rng) if i % 3 == 2 else _macro_case(rng)
 
@@ -276,22 +294,30 @@ def _sites(e, table, out, where):
 
 
 def _show(v):
-  if isinstance(v, _R):
+  if isinstance(v, _R) or v is _G:
     return '<g run>'
   if isinstance(v, (list, tuple)):
     return type(v)(_show(i) for i in v)
   if isinstance(v, dict):
     return {str(_show(k)): _show(i) for k, i in v.items()}
-  return v if v is not _G else '<g run>'
+  return v
 
 
 def _final_sites(case):
   table, uses = {}, {}
   for step in case['steps']:
-    for s in _source_order(step):
-      (table if s['k'] == 'def' else uses)[s['name'] if s['k'] == 'def' else
-                                            (s['scope'], s['u'])] = s['val']
+    _apply(step, table, uses)
   return _all_sites(table, uses)
+
+
+def _apply(step, table, uses):
+  """Model of one parse call: statements take effect in source order (an included file
+  in place of its include statement, files before the extra bindings)."""
+  for s in step['stmts']:
+    if s['k'] == 'def':
+      table[s['name']] = s['val']
+    else:
+      uses[(s['scope'], s['u'])] = s['val']
 
 
 def _all_sites(table, uses):
@@ -319,17 +345,13 @@ def _parse_step(step, tmp, idx):
     gin.parse_config(lines)
   elif how == 'file':
     gin.parse_config_file(write('f%d.gin' % idx, lines))
-  elif how == 'include':      # statements 0..k-1, then an included file, then the rest... in order
+  elif how == 'include':      # statements k, k+1 live in an included file
     inc = write('inc%d.gin' % idx, lines[k:k + 2])
-    gin.parse_config_file(write('f%d.gin' % idx, lines[:k] + ['include %r' % inc] + lines[k + 2:]))
+    gin.parse_config_file(
+        write('f%d.gin' % idx, lines[:k] + ['include %r' % inc] + lines[k + 2:]))
   else:
     gin.parse_config_files_and_bindings([write('f%d.gin' % idx, lines[:k])], lines[k:],
                                         finalize_config=False)
-
-
-def _source_order(step):
-  s, k = step['stmts'], step['split']
-  return s if step['how'] != 'include' else s[:k] + s[k:k + 2] + s[k + 2:]
 
 
 def _check_macro(case, fails):
@@ -346,13 +368,9 @@ def _check_macro(case, fails):
   try:
     for idx, step in enumerate(case['steps']):
       _parse_step(step, tmp, idx)
-      for s in _source_order(step):
-        if s['k'] == 'def':
-          table[s['name']] = s['val']
-        else:
-          uses[(s['scope'], s['u'])] = s['val']
-      order = 'step%d/%d' % (idx + 1, len(case['steps']))
-      for scope in ('', 's'):
+      _apply(step, table, uses)
+      order = 'first parse call' if idx == 0 else 'later parse call'
+      for scope in ('', 's', 'a'):   # 'a' is also a macro name: '%b' there is still 'b'
         for u in range(4):
           e = uses.get((scope, u), uses.get(('', u)))
           if e is None:
@@ -363,8 +381,13 @@ def _check_macro(case, fails):
             except (_Unbound, TypeError):
               break
             lo = len(runs_log)
-            with gin.config_scope(scope or None):
-              got = users[u]()
+            try:
+              with gin.config_scope(scope or None):
+                got = users[u]()
+            except Exception as exc:  # pylint: disable=broad-except
+              _fail(fails, 'macro_latest_value', _show(want), repr(exc)[:160],
+                    'raised ' + type(exc).__name__)
+              break
             runs = []
             ok = _match(want, got, runs)
             n_runs = len(runs_log) - lo
@@ -375,7 +398,7 @@ def _check_macro(case, fails):
             elif not ok:
               stale = any(isinstance(x, _R) and x.idx < lo for x in _flat(got))
               _fail(fails, 'macro_reevaluates_ref' if stale else 'macro_latest_value',
-                    _show(want), _show(got), 'how=%s %s' % (step['how'], order if idx else 'step1'))
+                    _show(want), _show(got), 'how=%s %s' % (step['how'], order))
             if not ok:
               break
   finally:
@@ -418,7 +441,7 @@ def _resolve(store, s):
 
 
 def _define(store, name, obj, fails):
-  """gin.constant(name, obj) against the model; returns True if it was accepted."""
+  """gin.constant(name, obj) checked against, and recorded in, the model `store`."""
   try:
     gin.constant(name, obj)
     err = None
@@ -445,7 +468,6 @@ def _define(store, name, obj, fails):
           'longer-than-existing' if any(name.endswith('.' + n) for n in store) else 'unrelated')
   else:
     store[name] = obj
-  return err is None
 
 
 def _check_const(case, fails):
@@ -456,10 +478,10 @@ def _check_const(case, fails):
   def obj(name):
     objs[name] = ['constant', name, len(objs)]      # mutable, compared by identity
     return objs[name]
-  plan = [(n, 'def') for n in case['names']]
+  plan = list(case['names'])
   if case['attempt'] is not None:
-    plan.insert(case['where'], (case['attempt'], 'attempt'))
-  for name, _kind in plan:
+    plan.insert(case['where'], case['attempt'])
+  for name in plan:
     _define(store, name, obj(name), fails)
   if case['enum']:
     class Color(enum.Enum):
@@ -470,20 +492,22 @@ def _check_const(case, fails):
       store['c.a.Color.' + member.name] = member
     try:
       gin.constants_from_enum(Color, module='c.a')
-      _fail(fails, 'constant_duplicate', 'an error for a second registration of the enum',
-            'accepted', 'enum')
     except ValueError:
       pass
-  # every stored constant must still be the object of its (last accepted) definition
+    else:
+      _fail(fails, 'constant_duplicate', 'an error for a second registration of the enum',
+            'accepted', 'enum')
+  # every dotted suffix resolves as the model says, to the object of the accepted definition
   queries = set()
-  for n in list(store) + POOL:
+  for n in list(store) + case['names'] + ['X', 'Y', 'a.X', 'q.X']:
     parts = n.rstrip('\n').split('.')
     queries.update('.'.join(parts[i:]) for i in range(len(parts)))
   for q in sorted(queries):
     gin.clear_config()
     matches = _resolve(store, q)
     ref = '%m' if case['via_macro'] else '%' + q
-    text = ('m = %' + q + '\n' if case['via_macro'] else '') + 'u0.v = [' + ref + ', {"k": ' + ref + '}]'
+    text = ('m = %' + q + '\n' if case['via_macro'] else '') + (
+        'u0.v = [' + ref + ', {"k": ' + ref + '}]')
     sig = 'matches=%s exact=%s' % (min(len(matches), 2), q in store)
     try:
       gin.parse_config(text)
@@ -502,14 +526,17 @@ def _check_const(case, fails):
     if not matches:             # no constant: an ordinary, unbound macro
       try:
         gin.finalize()
-        _fail(fails, 'finalize_rejects', 'an error: %%%s is not bound' % q, 'finalize() returned',
-              'sites=nonconstant')
-      except ValueError:
-        pass
+      except Exception:  # pylint: disable=broad-except
+        continue
+      _fail(fails, 'finalize_rejects', 'an error: %%%s is not bound' % q, 'finalize() returned',
+            'sites=nonconstant')
       continue
     want = store[matches[0]]
     for _rep in range(2):
-      got = user()
+      try:
+        got = user()
+      except Exception as e:  # pylint: disable=broad-except
+        got = e
       ok = (isinstance(got, list) and len(got) == 2 and isinstance(got[1], dict) and
             got[0] is want and got[1].get('k') is want)
       if not ok:
